@@ -232,6 +232,64 @@ def scenario(clock_name, clock, ending, sleep_check, other_clock=None):
     return out
 
 
+def concurrent(clock_name, clock, opname, ends):
+    """An operation issued from ANOTHER OS thread (here: the main thread) while a clock thread is executing a step of the
+    routine's body.  It comes from outside, so it must not be refused: under the library lock it waits for the step to end
+    and then acts on the state the routine is in (table of the model).  Every expectation is state-based, so a main thread
+    that is late (arrives after the step) sees the same results: load cannot raise a false alarm."""
+    out = {'clock': clock_name, 'ending': 'concurrent_%s_%s' % (opname, 'ends' if ends else 'yields'), 'violations': []}
+    v = out['violations']
+    started, flags = threading.Event(), {'step_done': False}
+
+    def body():
+        yield 0.01
+        started.set()                      # the clock thread is inside this step (holding the library lock) ...
+        t0 = time.time()
+        while time.time() - t0 < 0.08:     # ... and stays in it for a while
+            pass
+        flags['step_done'] = True
+        if not ends:
+            yield 1000                     # no further wake-up during the test
+            yield 1000
+    r = Routine(body)
+    r.play(clock)
+    if not started.wait(3.0):
+        out['skipped'] = 'the routine did not start within 3 s'
+        return out
+    try:
+        res = getattr(r, opname)()
+        outcome = 'returned %r' % (res,)
+    except BaseException as e:
+        outcome = 'raised %s' % type(e).__name__
+    done_at_return = flags['step_done']
+    state = r.state.name
+    out.update({'outcome': outcome, 'step_done_when_the_call_returned': done_at_return, 'state_after': state})
+    if outcome.startswith('raised RoutineException'):
+        v.append('%s() called from another thread while the clock thread was executing the routine\'s body was refused '
+                 '(RoutineException): it comes from outside and must wait for the step to end' % opname)
+    elif outcome.startswith('raised') and not (opname == 'next' and ends and outcome == 'raised StopStream'):
+        v.append('%s() from another thread raised: %s' % (opname, outcome))
+    if not done_at_return:
+        v.append('%s() from another thread returned while the clock thread was still inside the step of the body: '
+                 'operations from outside must be serialised with the wake-ups' % opname)
+    after_step = 'Done' if ends else 'Suspended'          # state once the step is over
+    want = {'pause': 'Done' if ends else 'Paused', 'stop': 'Done', 'reset': 'Init', 'resume': after_step, 'play': after_step,
+            'next': 'Done' if ends else 'Suspended'}[opname]
+    if not outcome.startswith('raised RoutineException') and state != want:
+        v.append('%s() from another thread: the routine is %s afterwards, documented %s' % (opname, state, want))
+    if opname == 'next' and not ends and outcome != 'returned 1000':
+        v.append('next() from another thread did not run the next step after waiting: %s' % outcome)
+    settle()
+    with main._main_lock:
+        if main.current_tt is not main.main_tt:
+            v.append('after %s() from another thread main.current_tt is not main.main_tt' % opname)
+    try:
+        r.stop()
+    except BaseException:
+        pass
+    return out
+
+
 def main_():
     inp = json.load(open(sys.argv[1]))
     clocks = [('SystemClock', clk.SystemClock), ('AppClock', clk.AppClock),
@@ -246,6 +304,14 @@ def main_():
                 res.append(scenario(name, c, e, e in inp.get('sleep_check', []), other))
             except BaseException as ex:
                 res.append({'clock': name, 'ending': e, 'violations': [], 'skipped': '%s: %s' % (type(ex).__name__, ex)})
+    for name, c in clocks[:3]:
+        for opname in inp.get('concurrent', []):
+            for ends in (False, True):
+                try:
+                    res.append(concurrent(name, c, opname, ends))
+                except BaseException as ex:
+                    res.append({'clock': name, 'ending': 'concurrent_' + opname, 'violations': [],
+                                'skipped': '%s: %s' % (type(ex).__name__, ex)})
     json.dump({'scenarios': res}, open(sys.argv[2], 'w'))
     sys.stdout.flush()
     os._exit(0)        # daemon clock threads / sockets: do not wait for interpreter shutdown
